@@ -44,6 +44,7 @@ var (
 	c14Once   sync.Once
 	c14Models []*wire.N // messages built and encoded by E
 	c14Frames [][]byte  // reference frames parsed by P
+	c14Bad    [][]byte  // malformed frames parsed by Q
 	c14Fields = []struct {
 		name string
 		mask bool
@@ -104,6 +105,13 @@ func c14Init() {
 		} {
 			b, _ := wire.Encode(n)
 			c14Frames = append(c14Frames, b)
+		}
+		if len(c14Frames) >= 3 {
+			c14Bad = [][]byte{
+				append([]byte{}, c14Frames[0][:len(c14Frames[0])/2]...),
+				func() []byte { b := append([]byte{}, c14Frames[2]...); b[16], b[17] = 0xff, 0xf0; return b }(),
+				{4, 0, 0, 9, 0, 0, 0, 1, 0},
+			}
 		}
 		// one frame of every kind the parser decodes (switch-originated base messages, and the
 		// controller-originated kinds a bundle-add may embed), as further single-operation bodies
@@ -169,6 +177,15 @@ func c14Run(o c14Op) (xids []uint32, result string) {
 			return nil, "parse error: " + err.Error()
 		}
 		return nil, dump.Dump(m, dump.Options{Normalise: true})
+	case "Q":
+		// Parse of a frame the parser must reject: a packet-in cut short, a flow-stats reply whose
+		// record length runs past the end, a hello with a one-byte element header
+		f := c14Bad[o.Arg%len(c14Bad)]
+		m, err := of.Parse(append([]byte{}, f...))
+		if err == nil {
+			return nil, "accepted: " + dump.Dump(m, dump.Options{Normalise: true})
+		}
+		return nil, "rejected"
 	case "F":
 		fl := c14Fields[o.Arg%len(c14Fields)]
 		h, err := of.FindFieldHeaderByName(fl.name, fl.mask)
@@ -239,7 +256,7 @@ func c14Run(o c14Op) (xids []uint32, result string) {
 // as single-operation bodies. E operations: even argument = a model, odd = same kind, other values.
 var c14Alphabet = []c14Op{{"G", 0}, {"H", 0}, {"E", 0}, {"E", 4}, {"P", 0}, {"F", 0}, {"B", 0}, {"E", 1}, {"E", 2}, {"E", 3}, {"E", 5}, {"E", 6}, {"E", 7},
 	{"E", 8}, {"E", 9}, {"E", 10}, {"E", 11}, {"E", 12}, {"E", 13}, {"E", 14}, {"E", 15}, {"E", 16}, {"E", 17}, {"E", 18}, {"E", 19}, {"P", 1}, {"P", 2}, {"F", 1}, {"F", 2},
-	{"D", 0}, {"D", 1}, {"D", 2}}
+	{"D", 0}, {"D", 1}, {"D", 2}, {"Q", 0}, {"Q", 1}, {"Q", 2}}
 
 func maxOf(v uint64) uint64 {
 	switch {
@@ -480,10 +497,10 @@ func c14(r *ev.Run, replay string) {
 			b2 = append(b2, b)
 		}
 	}
-	b2 = append(b2, []c14Op{{"F", 0}, {"F", 1}}, []c14Op{{"P", 0}, {"F", 0}}, []c14Op{{"F", 0}, {"G", 0}}, []c14Op{{"E", 4}, {"P", 0}}, []c14Op{{"E", 4}, {"E", 5}})
+	b2 = append(b2, []c14Op{{"Q", 0}, {"G", 0}}, []c14Op{{"G", 0}, {"Q", 1}, {"G", 0}}, []c14Op{{"Q", 2}}, []c14Op{{"F", 0}, {"F", 1}}, []c14Op{{"P", 0}, {"F", 0}}, []c14Op{{"F", 0}, {"G", 0}}, []c14Op{{"E", 4}, {"P", 0}}, []c14Op{{"E", 4}, {"E", 5}})
 	drawsOnly := func(b []c14Op) bool {
 		for _, o := range b {
-			if o.Kind == "P" || o.Kind == "F" {
+			if o.Kind == "P" || o.Kind == "F" || o.Kind == "Q" {
 				return false
 			}
 		}
